@@ -791,7 +791,7 @@ def gen_lsq_meta(rng, shape, shiftcell, start, form):
 def metas(ctx):
     rng = ctx.rng
     out = []
-    reps = ctx.n(1, 12)
+    reps = ctx.n(1, 5)
     # ---- CGLS ----
     for shape, shiftcell, start, form in itertools.product(["over", "square", "under"], ["0", "+"], ["zero", "random"],
                                                            ["dense", "sparse", "fun", "fun-sparse"]):
@@ -869,7 +869,7 @@ def metas(ctx):
                 pk = mk()
             me.update(prox=pk, proxcell=pc, adaptive=adaptive, t=t, stepcell=stepcell)
             del me["shift"]
-            out.append(dict(me, op="fista_runs", K=ctx.n(6, 8), abstol=0.0))
+            out.append(dict(me, op="fista_runs", K=6, abstol=0.0))
             if form == "dense" and stepcell == "dyadic":
                 out.append(dict(me, op="fista_conv", maxit=200000, abstol=1e-8))
                 if pc in ("l1", "nonneg") and shape == "over":
@@ -885,7 +885,7 @@ def metas(ctx):
         out.append(dict(me, op="fista_runs", K=5, abstol=0.125))
         out.append(dict(me, op="fista_runs", K=3, abstol=64.0))
     # ---- projections and soft-thresholding ----
-    for _ in range(ctx.n(60, 600)):
+    for _ in range(ctx.n(60, 300)):
         n = rng.randint(1, 6)
         x = [float(rng.choice(DY)) for _ in range(n)]
         gcell = rng.choice(["pos", "pos", "pos", "zero", "tie", "neg"])
@@ -961,7 +961,9 @@ def run(ctx):
                   assumptions=["float rounding is not modelled: CGLS/FISTA/LM iterates are compared with the model's exact rationals within 1e-9, PCGLS iterates within 1e-6 "
                                "(relative+absolute), converged points within 1e-6; projections and soft-thresholding are compared exactly on dyadic data",
                                "LA.norm(.)**2 is modelled as the exact sum of squares; tol/abstol/gradtol >= 0",
-                               "iteration counts may differ from the exact-arithmetic count only when a stopping comparison is within 1e-6 relative of equality (cg_margin)",
+                               "iteration counts may differ from the exact-arithmetic count only when a stopping comparison is within 1e-6 relative of equality (cg_margin), or by one "
+                               "iteration between two converged CG runs whose observed point passes the exact certificate (float CG loses orthogonality near convergence); "
+                               "CG iterates beyond the second are compared only to 1e-3 for the same reason; FISTA's abstol test may fire by rounding up to 1e-9 early",
                                "spa.linalg.inv / spsolve / LA.solve are oracles: the harness supplies the exact rational inverse of P and the model checks P*Pinv = I",
                                "SciPy optimisers (fmin_l_bfgs_b, minimize, least_squares) are oracles: they are called for real through a recorder and only the translation is modelled",
                                "convergence of the iterations is not proved (property: 'run to convergence'); the harness checks that the stopping test fired"])
